@@ -241,7 +241,7 @@ func TestCorpora(t *testing.T) {
 	const test = "Corpora"
 	hx.Rule(test, "repository testdata and llvm-stress programs: same repetition oracle (16 parses)")
 	var texts []string
-	for _, f := range corpus.RepoTestdata() {
+	for _, f := range corpus.Fixed() {
 		texts = append(texts, f.Text)
 	}
 	for i, x := range texts {
@@ -277,7 +277,7 @@ func TestMutatedCorpus(t *testing.T) {
 	const test = "MutatedCorpus"
 	hx.Rule(test, "repository testdata and llvm-stress programs changed by 1..3 drawn text mutations (h/mut), kept when llvm-as and the parser accept them: same repetition oracle (12 parses, interleaved with two other inputs)")
 	var texts []string
-	for _, f := range corpus.RepoTestdata() {
+	for _, f := range corpus.Fixed() {
 		if len(f.Text) < 16<<10 {
 			texts = append(texts, f.Text)
 		}
